@@ -238,8 +238,7 @@ def run_slice(prog, rep):
             I = list(its)[0] if its else None
             # start > end test on the same elements decided before
             gt = [(k, v) for k, v in assign.items() if k[0] == 'cmp' and k[1] == '<' and I is not None and contains(k, I) and not contains(k, 'nix::util::positionToIndex') and 'operator[]' in repr(k[2]) and 'operator[]' in repr(k[3])]
-            if not gt or gt[0][1] is not False:
-                probs['start>end'].append('conversion reached without establishing !(start[i] > end[i])')
+            # (whether the test covers the converted elements is decided on the syntax-level facts below)
             # dimension i+1
             gd = [l for l in log if l[0] == 'getDimension']
             if gd and I is not None and gd[0][-1] not in (('bin', '+', I, 1), ('bin', '+', 1, I)):
@@ -287,6 +286,40 @@ def run_slice(prog, rep):
             probs['padding'].append('conversion runs without filling in missing start/end/unit entries')
     if not pads:
         probs['padding'].append('missing entries are never filled in')
+    # the start > end test is made on the very elements that are converted (the padded copies at the loop's index), and they are
+    # not changed in between: decided on the syntax-level facts that hold at the conversion call
+    sem_ = Sem(prog)
+    conv = [c for c in f.calls() if (c.callee or {}).get('name') == 'positionToIndex' and 'vector' in ((c.callee or {}).get('sig') or '').split(',')[0]]
+    if not conv:
+        raise AnalysisBroken('R-SLICE: range conversion call not found in dataSlice')
+
+    def elem(t):
+        while isinstance(t, tuple) and t and t[0] in ('new', 'list', 'cast'):
+            t = t[-1]
+        return t
+    a_ = real_args(conv[0])
+    es, ee = elem(term(unwrap(a_[0]))), elem(term(unwrap(a_[1])))
+    facts = sem_.facts_at(f, conv[0].id)
+    okf = any((t[0] == 'b' and t[1] == '>' and pol is False and t[2] == es and t[3] == ee) or (t[0] == 'b' and t[1] == '<' and pol is False and t[2] == ee and t[3] == es) or
+              (t[0] == 'b' and t[1] == '<=' and pol is True and t[2] == es and t[3] == ee) or (t[0] == 'b' and t[1] == '>=' and pol is True and t[2] == ee and t[3] == es) for (t, pol) in facts if isinstance(t, tuple) and len(t) == 4)
+    if not okf and isinstance(es, tuple) and isinstance(ee, tuple) and es[:2] == ('op', '[]') and ee[:2] == ('op', '[]'):
+        # validate-all-first form: an earlier loop over all entries of the same (already padded) vectors that throws for start > end
+        fills = [c for c in f.calls() if (c.callee or {}).get('name') == 'fillPositionsExtentsAndUnits']
+        for x in f.walk():
+            if x.k != 'if' or x.id > conv[0].id or (fills and x.id < fills[-1].id) or len(x.c) < 4 or x.c[2] is None:
+                continue
+            t = term(unwrap(x.c[2]))
+            if not (isinstance(t, tuple) and len(t) == 4 and t[0] == 'b' and t[1] == '>' and isinstance(t[2], tuple) and isinstance(t[3], tuple) and
+                    t[2][:3] == es[:3] and t[3][:3] == ee[:3] and t[2][3] == t[3][3]):
+                continue
+            loops = [a for a in x.ancestors() if a.k == 'for']
+            throws = x.c[3] is not None and any(y.k == 'throw' for y in x.c[3].walk())
+            whole = loops and loops[0].c[1] is not None and ('size' in loops[0].c[1].src(60) or 'dim_count' in loops[0].c[1].src(60)) and es[2][2] in loops[0].c[1].src(60) + 'dim_count'
+            later_mod = any(m.id > x.id and m.id < conv[0].id for lid in (es[2][1], ee[2][1]) for m in sem_.mods(f).get(lid, []))
+            if loops and throws and whole and not later_mod:
+                okf = True
+    if not okf:
+        probs['start>end'].append('the conversion of (%s, %s) is reached without !(start > end) established on these very elements: entries filled in for unspecified dimensions are not covered by the test' % (a_[0].src(20), a_[1].src(20)))
     if not all(seen.values()):
         raise AnalysisBroken('R-SLICE: abstract paths do not cover %s' % [k for k, v in seen.items() if not v])
     for k, v in probs.items():
